@@ -23,6 +23,7 @@ import Relic.Driver.C19
 import Relic.Driver.C17
 import Relic.Driver.C14
 import Relic.Driver.C11
+import Relic.Driver.C04Policy
 import Relic.Driver.MachO
 import Relic.Driver.Pgp
 import Relic.Driver.Appx
@@ -47,6 +48,7 @@ def dispatch (line : String) : String :=
   | "C15" :: rest => Relic.Driver.C15.handle rest
   | "C06" :: rest => Relic.Driver.C06.handle rest
   | "C07" :: rest => Relic.Driver.C07.handle rest
+  | "C04" :: "preq" :: rest => Relic.Driver.C04Policy.handle rest
   | "C04" :: rest => Relic.Driver.C04.handle rest
   | "C09" :: rest => Relic.Driver.C09.handle rest
   | "C18" :: rest => Relic.Driver.C18.handle rest
